@@ -244,8 +244,11 @@ fn emit_switch_conditional(
     let mut branch_bodies: Vec<EmittedContainer> = Vec::new();
     for (branch_index, (_, body_nodes)) in branches.iter().enumerate() {
         let branch_array_index = switch_index + preamble_len + branch_index;
-        let branch_scope =
-            scope.conditional_branch(&format!("{branch_array_index}.b"));
+        // The branch body is preceded by the `pop` of the switch value (inserted
+        // below): everything in it sits one index further along.
+        let branch_scope = scope
+            .conditional_branch(&format!("{branch_array_index}.b"))
+            .with_param_offset(1);
         let mut body = emit_nodes(body_nodes, &branch_scope, context)?;
         body.push(json!({"->": exit_target}));
         branch_bodies.push(body);
